@@ -12,6 +12,7 @@ RULE = ("histories of 5-40 events over {backward with a fresh random gradient fi
         "shape are checked; bystanders and frozen parameters must stay byte-identical. distinct key = (optimizer, hyper-parameter class, event "
         "kind sequence); non-trivial = >= 2 steps and (momentum/moments active or weight decay or a step without zero_grad or a freeze)")
 RULE += (' Added after the seeded rounds: a parameter frozen while the optimizer is constructed, `opt.lr` reassigned, a second optimizer instance over the same parameters, parameters stored as views, and the check that a trainable parameter holding a non-zero gradient moves.')
+RULE += (" Round 6 / reach monitor: eps = 0 (nan-aware comparison: 0/0 exactly where the published rule has it); plain training loops of 1100-1300 steps per optimizer (step counters, bias corrections at large t).")
 ASSUMPTIONS = ["reference = torch.optim algorithms as documented: Adam/AdamW negate the gradient first when maximize; coupled decay for SGD/Adam, decoupled for AdamW; "
                "momentum buffer initialised with the first gradient; bias corrections 1-beta^t",
                "SGD with maximize=True and weight_decay != 0: the SGD documentation's pseudo-code (theta + lr*(g + wd*theta)) and torch's implementation "
